@@ -45,3 +45,5 @@ Definition m_grun (fx : fixes) (c : grp_cfg) (l : list gev) : N * option N :=
 Definition m_gstep (fx : fixes) (c : grp_cfg) := gstep fx (glue_cf fx) (glue_rf fx) glue_sf cfg_fixed c.
 Definition m_gfinal (fx : fixes) (c : grp_cfg) (l : list gev) : option grp_st :=
   gfinal fx (glue_cf fx) (glue_rf fx) glue_sf cfg_fixed c grp_init l.
+Definition m_gtotal (fx : fixes) (c : grp_cfg) (l : list gev) : option N :=
+  gtotal fx (glue_cf fx) (glue_rf fx) glue_sf cfg_fixed c grp_init l.
